@@ -177,6 +177,32 @@ class MetricsDriver:
             w.do(str(t), "enterprep")
             self.depth[str(t)] += 1
             return self._obs("enter", self._res(t))
+        if name == "OffLoop":
+            t = args[0]
+            out = []
+
+            def work():
+                try:
+                    with ctx.scope("worker"):
+                        pass
+                    out.append("entered")
+                except RuntimeError:
+                    out.append("refused")      # no event loop in this thread: fine
+                except BaseException as e:  # noqa: BLE001
+                    out.append(repr(e)[:120])
+
+            def off_loop():
+                import contextvars
+                import threading
+                th = threading.Thread(target=contextvars.copy_context().run, args=(work,))
+                th.start()
+                th.join()
+
+            w.do(str(t), "call", off_loop)
+            res = self._res(t)
+            if res == "ok" and (not out or out[0] not in ("entered", "refused")):
+                res = out[0] if out else "thread did not run"
+            return self._obs("offloop", res)
         if name == "Close":
             t = args[0]
             w.do(str(t), "leave", "return")
@@ -280,6 +306,8 @@ def gen_trace(rnd, mtypes, ntasks=4, nscopes=8, nops=30, records=True):
             if made is not None and len(stack[t]) < 4:
                 ch += [("EnterMade", [t])] * 2
             if stack[t]:
+                ch += [("OffLoop", [t])]
+            if stack[t]:
                 sid, k = stack[t][-1]
                 ch += [("Close", [t])] * 3
             if born < ntasks:
@@ -330,7 +358,7 @@ def trace_kw(mtypes):
         variables=["par", "kids", "phase", "mk", "kind", "done", "born", "doneAt", "cbq", "cblog", "vals", "cur", "tg", "stack",
                    "saved", "grp", "alive", "wait", "now", "nrec", "nops", "drained", "obs"],
         constants=dict(NTasks=4, N=8, MaxOps=100000, MaxRec=100000, MaxT=100000,
-                       MTypes="{" + ", ".join(f'"{m}"' for m in mtypes) + "}", Kinds='{"s", "a"}', Prep="TRUE", Bug='"none"'),
-        config_vars=[], actions=dict(Open=2, Make=2, EnterMade=1, Close=1, Start=3, End=1, Tick=0, Record=2, Drain=0),
+                       MTypes="{" + ", ".join(f'"{m}"' for m in mtypes) + "}", Kinds='{"s", "a"}', Prep="TRUE", Threads="TRUE", Bug='"none"'),
+        config_vars=[], actions=dict(Open=2, Make=2, EnterMade=1, OffLoop=1, Close=1, Start=3, End=1, Tick=0, Record=2, Drain=0),
         internal="Internal", quiet="M!Rest",
         invariants=["CbAtMostOnce", "CbAfterSubtree", "CbAfterMembers", "CbSeesCompleted", "ExitNeverFails", "FoldOrder"])
